@@ -780,15 +780,18 @@ class DistGeometric(DistDiscrete):
         ------
         TypeError: when stream is not implementing StreamInterface
         TypeError: when p is not a float
-        ValueError: when p < 0 or p > 1
+        ValueError: when p <= 0 or p > 1 (without a chance of success
+            the number of failures before the first success is infinite)
         """
         super().__init__(stream)
         if not isinstance(p, float):
             raise TypeError(f"parameter p {p} is not a float")
-        if not 0 <= p <= 1:
-            raise ValueError(f"parameter p {p} not between 0 and 1")
+        if not 0 < p <= 1:
+            raise ValueError(f"parameter p {p} not in the interval (0, 1]")
         self._p = p
-        self._lnp = math.log(1.0 - self._p)
+        # ln(1-p); for p == 1 every trial succeeds: ln(u) / -inf = -0.0, so
+        # the number of failures before the first success is always 0.
+        self._lnp = math.log(1.0 - self._p) if self._p < 1.0 else -math.inf
         
     def draw(self) -> int:
         """
@@ -849,21 +852,23 @@ class DistNegBinomial(DistDiscrete):
         TypeError: when stream is not implementing StreamInterface
         TypeError: when p is not a float
         TypeError: when s is not an int
-        ValueError: when p < 0 or p > 1 or s <= 0
+        ValueError: when p <= 0 or p > 1 or s <= 0 (without a chance of 
+            success the number of failures is infinite)
         """
         super().__init__(stream)
         if not isinstance(p, float):
             raise TypeError(f"parameter p {p} is not a float")
         if not isinstance(s, int):
             raise TypeError(f"parameter s {s} is not an int")
-        if not 0 <= p <= 1:
-            raise ValueError(f"parameter p {p} not between 0 and 1")
+        if not 0 < p <= 1:
+            raise ValueError(f"parameter p {p} not in the interval (0, 1]")
         if s <= 0:
             raise ValueError(f"parameter s {s} <= 0")
         self._p = p
         self._s = s
         # helper variable equal to ln(1-p) to avoid repetitive calculation.
-        self._lnp = math.log(1.0 - self._p)
+        # For p == 1 every trial succeeds: ln(u) / -inf = -0.0, 0 failures.
+        self._lnp = math.log(1.0 - self._p) if self._p < 1.0 else -math.inf
         
     def draw(self) -> int:
         """
